@@ -26,6 +26,10 @@ type Stmt struct {
 	Blank   int      `json:"blank"`              // extra blank lines fed after the statement (besides the terminator)
 	BlankWS string   `json:"blank_ws,omitempty"` // what an extra blank line consists of ("" or whitespace only)
 	Ticks   []int    `json:"ticks"`              // tick ids the statement contains (informational)
+	// RefLines, if set, is the text the REFERENCE session executes instead of
+	// Lines: identical except that expression statements nested in top-level
+	// blocks (which the interactive compiler echoes) are wrapped in echo(...)
+	RefLines []string `json:"ref_lines,omitempty"`
 }
 
 type Scenario struct {
@@ -183,7 +187,7 @@ func (g *sgen) stmt() Stmt {
 		d, t := g.tk("lambda f: f")
 		return Stmt{Kind: "compound", Lines: []string{"@" + d, "def g" + fmt.Sprint(r.Intn(2)) + "():", in + "return 42"}, Ticks: []int{t}}
 	case x < 37 && r.Chance(1, 2):
-		switch r.Intn(11) {
+		switch r.Intn(16) {
 		case 0: // for/else
 			n, t := g.tk(fmt.Sprint(1 + r.Intn(2)))
 			a, t2 := g.tk("7")
@@ -221,6 +225,22 @@ func (g *sgen) stmt() Stmt {
 		case 9: // dict display over several lines
 			a, t := g.tk(g.intExpr())
 			return Stmt{Kind: "bracket", Lines: []string{"dd = {'a': " + a + ",  # first", "      'b': 2,", "}"}, Ticks: []int{t}}
+		case 10: // expression statements inside a top-level loop are echoed (each iteration)
+			n, t := g.tk(fmt.Sprint(1 + r.Intn(3)))
+			e, t2 := g.tk("i + 10")
+			return Stmt{Kind: "compound", Lines: []string{"for i in range(" + n + "):", in + e}, RefLines: []string{"for i in range(" + n + "):", in + "echo(" + e + ")"}, Ticks: []int{t, t2}}
+		case 11: // ... and inside a top-level if / try
+			e, t := g.tk(g.intExpr())
+			f, t2 := g.tk("None")
+			return Stmt{Kind: "compound", Lines: []string{"if True:", in + e, in + f}, RefLines: []string{"if True:", in + "echo(" + e + ")", in + "echo(" + f + ")"}, Ticks: []int{t, t2}}
+		case 14: // calling a function whose body holds an expression statement echoes only the call's value
+			return Stmt{Kind: "expr", Lines: []string{"fq()"}}
+		case 12: // but not inside a class body
+			e, t := g.tk("20")
+			return Stmt{Kind: "compound", Lines: []string{"class K" + fmt.Sprint(r.Intn(2)) + ":", in + e, in + "zz = 1"}, Ticks: []int{t}}
+		case 13: // nor inside a function body when it is called
+			e, _ := g.tk("30")
+			return Stmt{Kind: "compound", Lines: []string{"def fq():", in + e, in + "return 1"}}
 		default: // a whitespace-only line inside a block does not end it
 			a, t := g.tk(g.intExpr())
 			b, t2 := g.tk(g.intExpr())
@@ -272,7 +292,7 @@ func (Engine) Gen(seed uint64, idx int, tier string) interface{} {
 	r := simrt.NewRand(simrt.Mix(seed, 0x20, uint64(idx)))
 	g := &sgen{r: r, ind: []string{"    ", "  ", "\t", "        "}[r.Intn(4)]}
 	sc := &Scenario{Order: simrt.MapOrder{Kind: r.Intn(4), K: r.Uint64()}}
-	sc.Stmts = append(sc.Stmts, Stmt{Kind: "simple", Lines: []string{"from simlog import tk"}})
+	sc.Stmts = append(sc.Stmts, Stmt{Kind: "simple", Lines: []string{"from simlog import tk, echo"}})
 	for i := 0; i < 4; i++ {
 		sc.Stmts = append(sc.Stmts, Stmt{Kind: "simple", Lines: []string{fmt.Sprintf("v%d = %d", i, i)}})
 	}
@@ -365,6 +385,7 @@ type tickRec struct {
 }
 
 type refStmt struct {
+	echoes  []string // echoes of expression statements nested in the statement's top-level blocks
 	ticks   []int
 	isExpr  bool
 	value   string // repr of the value (bare expression)
@@ -416,18 +437,27 @@ func (Engine) Exec(sci interface{}, opt harness.ExecOpts) *harness.Outcome {
 			return
 		}
 		var cur *refStmt
+		lastVal := ""
 		rs.Hook = func(kind string, args py.Tuple) {
 			if kind == "tick" && cur != nil && len(args) > 0 {
 				if id, ok := args[0].(py.Int); ok {
 					cur.ticks = append(cur.ticks, int(id))
 				}
 			}
+			if kind == "echo" && cur != nil && len(args) == 1 && args[0] != py.None {
+				if rp, err := py.Repr(args[0]); err == nil {
+					cur.echoes = append(cur.echoes, string(rp.(py.String)))
+					lastVal = string(rp.(py.String))
+				}
+			}
 		}
-		lastVal := ""
 		for _, st := range sc.Stmts {
 			var r refStmt
 			cur = &r
 			text := stmtText(st)
+			if st.RefLines != nil {
+				text = strings.Join(st.RefLines, "\n")
+			}
 			if isExprKind(st.Kind) {
 				r.isExpr = true
 				code, err := py.Compile(strings.TrimSpace(stripComment(text)), "<ref>", py.EvalMode, 0, true)
@@ -627,6 +657,10 @@ func (Engine) Exec(sci interface{}, opt harness.ExecOpts) *harness.Outcome {
 		case r.isExpr && r.errKind == "" && !r.none:
 			if len(mine) != 1 || mine[0] != r.value {
 				out.Violate("echo-differs", "echo|value", "statement %d: bare expression %q has value %s; the REPL printed %q", si, stmtText(st), r.value, mine)
+			}
+		case r.errKind == "" && len(r.echoes) > 0:
+			if strings.Join(mine, "\x00") != strings.Join(r.echoes, "\x00") {
+				out.Violate("echo-differs", "echo|nested", "statement %d (%s): the expression statements in its top-level blocks have the values %q; the REPL printed %q", si, st.Kind, r.echoes, mine)
 			}
 		default:
 			if len(mine) != 0 {
